@@ -139,7 +139,7 @@ theorem PendInvEx.lpm {ex : Option Spec} {st : St} (h : PendInvEx ex st) (w : Wo
     left
     refine ⟨{ spec := spec, count := count, range := lo.range, spRef := lo.spRef, isAsset := lo.isAsset,
               inDyn := lo.inDyn, isRoot := lo.isRoot, attr := lo.attr,
-              checksum := w.lockRemote.lookup spec }, ?_, heq.symm⟩
+              checksum := knownChecksum w (st.setSlot spec (.pending lo.isAsset)) spec }, ?_, heq.symm⟩
     simp only [loadPendingModule, pending_setSlot, List.mem_append, List.mem_cons, List.not_mem_nil, or_false]
     exact Or.inr trivial
   · rcases h s a hs' with ⟨r, hr, hrs⟩ | hex
